@@ -88,7 +88,25 @@ void fsvn_thrown(void);
 #define FSV_MAY_THROW(call) do { if ((call) != 0) FSV_THROWN(); FSV_ASSERT(!fsv_expect_throw, "an error was expected but the call returned normally"); } while (0)
 
 /* pow as seen by the unit: the stub of rt_model.h under cbmc (consistent with the unit's own calls), libm natively */
-#if defined(__CPROVER__)
+#if defined(__CPROVER__) && defined(FSV_POW_SEQ)
+/* oracle side of the call-sequence pow stub: j-th non-trivial pow call of the oracle = j-th of the unit (same order) */
+#ifndef FSV_POW_MAX
+#define FSV_POW_MAX 12
+#endif
+extern fsv_f64 fsv_pow_val[FSV_POW_MAX], fsv_pow_ax[FSV_POW_MAX], fsv_pow_ay[FSV_POW_MAX];
+extern int fsv_pow_calls;
+static int fsv_pow_oracle_k = 0;
+static inline fsv_f64 fsv_pow_nth(fsv_f64 x, fsv_f64 y) {
+  if (y == 1.0) return x;
+  if (y == 0.0) return 1.0;
+  int k = fsv_pow_oracle_k < FSV_POW_MAX ? fsv_pow_oracle_k : FSV_POW_MAX - 1;
+  fsv_pow_oracle_k++;
+  __CPROVER_assert(k < fsv_pow_calls, "FSV: the code under test calls pow as often as the discrete equation requires");
+  __CPROVER_assert((fsv_pow_ax[k] == x || (fsv_pow_ax[k] != fsv_pow_ax[k] && x != x)) && fsv_pow_ay[k] == y, "FSV: pow is applied to the arguments the discrete equation prescribes (same call order)");
+  return fsv_pow_val[k];
+}
+#define FSV_POW(x, y) fsv_pow_nth((x), (y))
+#elif defined(__CPROVER__)
 fsv_f64 fsvx_pow(fsv_f64, fsv_f64);
 #define FSV_POW(x, y) fsvx_pow((x), (y))
 #else
